@@ -721,6 +721,61 @@ def repeated_end_cases(rng, tries=12):
     return out
 
 
+def aryl_cases(rng):
+    """An aryl thioether written BEFORE the stereo part of the same fragment text: the upper-case S directly before
+    the aromatic c (`CSc1ccc(cc1)…`; `Sc` is also an element symbol) followed by a labelled stereocentre and a marked
+    double bond, in several cuts and base orders.  Hand-written texts (the random renderer does not write aromatic
+    atoms).  The benzene ring has a mirror automorphism; every judged atom is a fixed point of it."""
+    x1, x2, x3 = rng.sample(HAL, 3)
+    lab = rng.choice('RS')
+    t1, t2 = rng.choice('/\\'), rng.choice('/\\')
+    para = rng.random() < 0.6
+    m = SMol()
+    me, su = m.add('C'), m.add('S')
+    m.bond(me, su)
+    ring = [m.add('C') for _ in range(6)]
+    for i in range(6):
+        m.bond(ring[i], ring[(i + 1) % 6], 1.5)
+    m.bond(su, ring[0])
+    att = ring[3] if para else ring[4]
+    cst = m.add('C')
+    m.bond(att, cst)
+    f1, f2 = m.add(x1), m.add(x2)
+    m.bond(cst, f1)
+    m.bond(cst, f2)
+    d1, d2 = m.add('C'), m.add('C')
+    m.bond(cst, d1)
+    m.bond(d1, d2, 2)
+    br = m.add(x3)
+    m.bond(d2, br)
+    m.chiral[cst] = lab
+    m.stereo = [[d1, d2]]
+    # C*<t1>C : the ligand C* is written BEFORE its anchor; C<t2>X : the ligand is written after
+    m.side = {(cst, d1): ('d' if t1 == '/' else 'u'), (br, d2): ('u' if t2 == '/' else 'd')}
+    arom = ring
+    rg = 'c1ccc(cc1)' if para else 'c1cccc(c1)'
+    hs = 'H0' if False else ''
+    star = '[C%s;x=%s]' % (hs, lab)
+    tail = '%s(%s)(%s)%sC=C%s%s' % (star, x1, x2, t1, t2, x3)
+    wb = [[cst, d1, True, False], [br, d2, False, False]]
+    strings = [
+        ('single', '{[#M]}.{#M=CS%s%s}' % (rg, tail)),
+        ('cut S|ring', '{[#A][#B]}.{#A=CS[$],#B=[$]%s%s}' % (rg, tail)),
+        ('cut S|ring, reversed', '{[#B][#A]}.{#A=CS[$],#B=[$]%s%s}' % (rg, tail)),
+        ('cut methyl|S', '{[#A][#B]}.{#A=C[$],#B=[$]S%s%s}' % (rg, tail)),
+        ('cut ring|centre', '{[#A][#B]}.{#A=CS%s[$],#B=[$]%s}' % (rg, tail)),
+        ('cut ring|centre, reversed', '{[#B][#A]}.{#A=CS%s[$],#B=[$]%s}' % (rg, tail)),
+        ('cut at double bond', '{[#A][#B]}.{#A=CS%s%s(%s)(%s)%sC=[$],#B=[$]=C%s%s}' % (rg, star, x1, x2, t1, t2, x3)),
+        ('cut at double bond, reversed', '{[#B][#A]}.{#A=CS%s%s(%s)(%s)%sC=[$],#B=[$]=C%s%s}' % (rg, star, x1, x2, t1, t2, x3)),
+        ('substituent cut off', '{[#A][#B]}.{#A=CS%s%s([$])(%s)%sC=C%s%s,#B=[$]%s}' % (rg, star, x2, t1, t2, x3, x1)),
+        ('cut in three', '{[#A][#B][#C]}.{#A=CS[$a],#B=[$a]%s[$b],#C=[$b]%s}' % (rg, tail)),
+        ('cut in three, middle first', '{[#B]([#A])[#C]}.{#A=CS[$a],#B=[$a]%s[$b],#C=[$b]%s}' % (rg, tail)),
+    ]
+    mol = m.dump()
+    return [{'s': st, 'mol': mol, 'kind': 'aryl-thioether:' + k, 'nparts': st.split('.{')[0].count('#'),
+             'wb': wb, 'aromatic': True} for k, st in strings]
+
+
 STATS = {'ambiguous': 0, 'pysmiles_disagrees': 0, 'asymmetric_retry': 0}
 
 
@@ -966,6 +1021,8 @@ class C15(common.Prop):
         rep = repeated_end_cases(rng)
         rng.shuffle(rep)
         out += rep[:max(6, n // 12)]
+        for _ in range(max(1, n // 150)):
+            out += aryl_cases(rng)
         guard = 0
         while len(out) < n and guard < 50 * n:
             guard += 1
@@ -999,7 +1056,7 @@ class C15(common.Prop):
 
     def describe(self, case):
         d = {'s': case['s'], 'mol': case['mol'], 'kind': case.get('kind', '')}
-        for k in ('raw', 'judged', 'wb', 'simtok'):
+        for k in ('raw', 'judged', 'wb', 'simtok', 'aromatic'):
             if k in case:
                 d[k] = case[k]
         return d
@@ -1095,7 +1152,7 @@ class C15(common.Prop):
     def coq_case(self, case, impl):
         mol = case['mol']
         atoms = lit.lst([lit.pair(lit.z(k), lit.s(e)) for k, e in enumerate(mol['atoms'])])
-        bonds = lit.lst(['(%s, %s, %s)' % (lit.z(a), lit.z(b), lit.z(o)) for a, b, o in mol['bonds']])
+        bonds = lit.lst(['(%s, %s, %s)' % (lit.z(a), lit.z(b), lit.z(-1 if o == 1.5 else o)) for a, b, o in mol['bonds']])
         chir = lit.lst([lit.pair(lit.z(a), lit.s(c)) for a, c in mol['chiral']])
         rel = lit.lst(['(%s, %s, %s, %s, %s)' % (lit.z(l1), lit.z(a1), lit.z(a2), lit.z(l2), lit.b(c))
                        for l1, a1, a2, l2, c in mol['rel']])
@@ -1114,7 +1171,7 @@ class C15(common.Prop):
                    lit.lst([lit.pair(lit.z(a), lit.z(b)) for a, b in ident]) if ident is not None else '[]',
                    chir, rel, wbl,
                    lit.lst(['(%s, %s, %s)' % (lit.s(n), lit.s(t), o) for n, t, o in impl.get('frags', [])]),
-                   '(Some %s)' % lit.s(case['s']) if ('raw' not in case) else 'None',
+                   '(Some %s)' % lit.s(case['s']) if ('raw' not in case and not case.get('aromatic')) else 'None',
                    lit.lst(['(%s, %s, %s)' % (lit.z(l), lit.z(a), lit.b(sd == 'u')) for l, a, sd in mol['side']]),
                    lit.lst(['(%s, %s)' % (lit.s(n), lit.lst(['(%s, %s)' % (lit.z(i), lit.s(tk)) for i, tk in tl]))
                             for n, tl in sorted(case.get('simtok', {}).items())])))
@@ -1233,6 +1290,7 @@ WITNESSES = [
     # one fragment named twice in the base graph with another in between, both double bonds cut (seeded/C15-6)
     {'s': '{[#X][#Y][#X]}.{#X=[$]=C/F,#Y=[$]=C(/Cl)CC/C(Br)=[$]}', 'mol': _WRP, 'kind': 'witness repeated fragment name', 'nparts': 3},
     {'s': '{[#M]}.{#M=C(/F)=C(/Cl)CC/C(Br)=C/F}', 'mol': _WRP, 'kind': 'witness repeated fragment name, single', 'nparts': 1},
+    # an upper-case atom directly before an aromatic one, written before the stereo part (seeded/C15-8): appended below
     # two-digit ring labels before labelled stereocentres (seeded/C15-1)
     {'s': '{[#A][#B]}.{#A=OC%10CCCC%10[$],#B=[$][C;x=R](F)[C;x=S](Cl)Br}', 'mol': None, 'kind': 'witness ring label', 'nparts': 2},
 ]
@@ -1242,5 +1300,20 @@ _WR = _wmol(['O', 'C', 'C', 'C', 'C', 'C', 'C', 'F', 'C', 'Cl', 'Br'],
 WITNESSES[-1]['mol'] = _WR
 WITNESSES.append({'s': '{[#A]}.{#A=OC%10CCCC%10[C;x=R](F)[C;x=S](Cl)Br}', 'mol': _WR, 'kind': 'witness ring label single',
                   'nparts': 1})
+
+
+class _FixedRng:
+    """deterministic choices for the corpus copy of the aryl thioether family: CSc1ccc(cc1)[C;x=R](F)(Cl)/C=C/Br"""
+    def sample(self, seq, k):
+        return ['F', 'Cl', 'Br'][:k]
+
+    def choice(self, seq):
+        return 'R' if 'R' in seq else '/'
+
+    def random(self):
+        return 0.0
+
+
+WITNESSES += aryl_cases(_FixedRng())
 
 PROP = C15()
